@@ -186,6 +186,9 @@ func relabelSig(sig hotstuff.QuorumSignature, n int) hotstuff.QuorumSignature {
 
 // truncSig drops the last signer of a multi-signature.
 func truncSig(sig hotstuff.QuorumSignature, drop int) hotstuff.QuorumSignature {
+	if drop <= 0 {
+		return nil
+	}
 	switch s := sig.(type) {
 	case crypto.Multi[*crypto.EDDSASignature]:
 		if len(s) <= drop {
@@ -443,6 +446,10 @@ func (a *adversary) onVote(nd *Node, to hotstuff.ID, c *hotstuff.PartialCert) bo
 		return false
 	}
 	w := a.w
+	// colluding Byzantine replicas share what they sign
+	if len(a.votes) < 4096 {
+		a.votes = append(a.votes, *c)
+	}
 	switch {
 	case has(acts, "dupvote") && a.chance(0.5):
 		for i := 0; i < 2+a.intn(3); i++ {
@@ -453,10 +460,20 @@ func (a *adversary) onVote(nd *Node, to hotstuff.ID, c *hotstuff.PartialCert) bo
 	case has(acts, "multivote") && a.chance(0.6):
 		// a vote whose signature object names two signers (its own twice, or its own plus a replayed one)
 		var sig hotstuff.QuorumSignature
-		if a.chance(0.5) || len(a.votes) == 0 {
+		var same []hotstuff.PartialCert // votes of other replicas for the same block, if the adversary holds any
+		for _, v := range a.votes {
+			if v.BlockHash() == c.BlockHash() && v.Signer() != nd.id {
+				same = append(same, v)
+			}
+		}
+		if len(same) == 0 && (a.chance(0.5) || len(a.votes) == 0) {
 			sig = repeatSig(c.Signature(), 2)
 		} else {
 			other := a.votes[a.intn(len(a.votes))]
+			if len(same) > 0 {
+				other = same[a.intn(len(same))]
+				a.fired("multivote-colluding")
+			}
 			if comb, err := nd.raw.Combine(c.Signature(), other.Signature()); err == nil {
 				sig = comb
 			}
